@@ -160,3 +160,32 @@ func order(infra, parts []Member, infraFirst bool) []Member {
 	}
 	return append(append([]Member{}, parts...), infra...)
 }
+
+// strictify turns a rendered Transitional package into the ISO/IEC 29500 Strict conformance
+// class: the main, drawing and relationships namespaces and every relationship Type move to
+// purl.oclc.org (Part 1, Annex A / 8.x of the Strict schemas); package-level namespaces
+// (relationships part, content types, core properties) stay. The root element of the main
+// part says conformance="strict".
+func strictify(ms []Member, strict bool) []Member {
+	if !strict {
+		return ms
+	}
+	r := strings.NewReplacer(
+		"http://schemas.openxmlformats.org/officeDocument/2006/relationships/extended-properties", "http://purl.oclc.org/ooxml/officeDocument/relationships/extendedProperties",
+		"http://schemas.openxmlformats.org/officeDocument/2006/extended-properties", "http://purl.oclc.org/ooxml/officeDocument/extendedProperties",
+		"http://schemas.openxmlformats.org/officeDocument/2006/relationships", "http://purl.oclc.org/ooxml/officeDocument/relationships",
+		"http://schemas.openxmlformats.org/spreadsheetml/2006/main", "http://purl.oclc.org/ooxml/spreadsheetml/main",
+		"http://schemas.openxmlformats.org/presentationml/2006/main", "http://purl.oclc.org/ooxml/presentationml/main",
+		"http://schemas.openxmlformats.org/drawingml/2006/main", "http://purl.oclc.org/ooxml/drawingml/main",
+		"<workbook xmlns=", `<workbook conformance="strict" xmlns=`,
+		"<p:presentation xmlns:a=", `<p:presentation conformance="strict" xmlns:a=`,
+	)
+	out := make([]Member, len(ms))
+	for i, m := range ms {
+		out[i] = m
+		if strings.HasSuffix(m.Name, ".xml") || strings.HasSuffix(m.Name, ".rels") {
+			out[i].Data = []byte(r.Replace(string(m.Data)))
+		}
+	}
+	return out
+}
